@@ -6,6 +6,7 @@ CONSTANTS
   HasHf = FALSE
   Absent0 = {}
   Admin = FALSE
+  TrackRep = FALSE
   AlwaysW = TRUE
   AlwaysPRs = TRUE
   Cmds = {}
